@@ -383,9 +383,12 @@ class SourceFile:
 
 
 class Normaliser:
+    keep_features = ()   # features whose cfg-guarded code is KEPT (only the attribute is dropped): directive //@keep-cfg
+
     def __init__(self):
         self.counts = {'N1_visibility': 0, 'N2_attrs_docs_dropped': 0, 'N3_ret_named_contract_spliced': 0,
-                       'N4_cfg_statistics_or_allow_dropped': 0, 'N5_ref_pattern_desugared': 0,
+                       'N4_cfg_statistics_or_allow_dropped': 0, 'N4b_cfg_attribute_dropped_code_kept': 0,
+                       'N5_ref_pattern_desugared': 0,
                        'N6_impl_iterator_return_type': 0, 'N7_tail_loop_break_value': 0, 'G_ghost_splices': 0}
 
     def vis(self, s):
@@ -426,6 +429,14 @@ class Normaliser:
                 break
             out.append(s[i:m.start()])
             j = m.end()
+            feat = re.search(r'"(\w+)"', m.group(0)).group(1)
+            if feat in self.keep_features:
+                # the unit is verified with this feature ON: keep the guarded code, drop only the attribute
+                self.counts['N4b_cfg_attribute_dropped_code_kept'] += 1
+                if s[j] == '{':
+                    out.append(';')   # empty statement: keeps a kept block from being parsed as part of a preceding loop header
+                i = j
+                continue
             if s[j] == '{':
                 j = sc.match[j] + 1
             else:
@@ -652,6 +663,11 @@ def expand(template_path, repo):
     while i < len(lines):
         ln = lines[i]
         st = ln.strip()
+        if st.startswith('//@keep-cfg '):
+            norm.keep_features = tuple(st.split()[1:])
+            out.append('// (extraction: code under #[cfg(feature = ...)] for ' + ', '.join(norm.keep_features) + ' is kept)')
+            i += 1
+            continue
         if st.startswith('//@item '):
             parts = st.split()
             rel, kind, name = parts[1], parts[2], parts[3]
